@@ -807,8 +807,11 @@ fn sign_with_signing_key(req: &mut RawRequest, access_key: &str, amz_date: &str,
 /// same scope; the same account under another region / service; an account whose name continues the first one's with
 /// the scope shifted by that many characters (so that key ++ date ++ region reads the same); each must be refused
 fn forgery_round(rt: &tokio::runtime::Runtime, r: &mut Report, g: &mut Rng, base_secrets: &HashMap<String, String>) {
-    let amz_now = unix_to_amz_date(now_unix() + g.range(-60, 60));
-    let region = (*g.pick(&["1x-verif", "us-east-1", "2nd-region-9", "eu-west-3"])).to_owned();
+    // the time stamp of the valid request: now, or (header authentication carries no freshness requirement in the statement)
+    // a day whose digits, shifted by one place together with a region that starts with a digit, are a calendar date again
+    // (2024-01-01 + "1x-verif" -> 0240-10-11 + "x-verif"), so that the shifted forgery below is well-formed
+    let amz_now = if g.chance(1, 2) { unix_to_amz_date(now_unix() + g.range(-60, 60)) } else { format!("{}T{:02}{:02}{:02}Z", g.pick(&["20240101", "20251011", "20230121", "20261201"]), g.below(24), g.below(60), g.below(60)) };
+    let region = (*g.pick(&["1x-verif", "us-east-1", "2nd-region-9", "eu-west-3", "1x-verif"])).to_owned();
     // an account whose name is the first one's plus the first character of today's date
     let ak_cont = format!("{AK}{}", &amz_now[..1]);
     let mut secrets = base_secrets.clone();
